@@ -33,6 +33,11 @@ def scenarios(tier):
   out.append(('mux (g) 1 endpoint, 3 calls, a tag above 65535 next to tag 2',
               {'stack': 'mux', 'endpoints': 1, 'ops': [('call', 'g0', 0.2525), ('call', 'g1'), ('call', 'g2')],
                'faults': ['drop'], 'timeout': 0.5025, 'tag_jump': [2, 65538]}))
+  for stack in ('thrift', 'mux'):
+    # timeouts that end exactly on a 10 ms tick (250 ms and 500 ms from the virtual epoch are exact in binary floating point)
+    out.append(('%s (h) 1 endpoint, 2 calls whose deadlines fall exactly on a timer tick' % stack,
+                {'stack': stack, 'endpoints': 1, 'ops': [('call', 'h0', 0.25), ('call', 'h1', 0.5)], 'faults': ['drop', 'stall'],
+                 'open_timeout': 0, 'timeout': 0.5}))
   out.append(('thrift (c) 1 endpoint, pool max 1 / queue 1, 3 calls',
               {'stack': 'thrift', 'endpoints': 1, 'ops': [('call', 'c0'), ('call', 'c1', 0.2525), ('call', 'c2')],
                'pool': {'max_watermark': 1, 'max_queue_len': 1}, 'faults': FAULTS, 'timeout': 0.5025}))
@@ -69,7 +74,7 @@ RULE = ('stateless exploration of the real client stack: every execution with at
         'steps, membership change, another random value; distinct = distinct observable outcome (per-call result and completion '
         'time + what the server received)')
 ASSUME = ['gevent loop contract: ready callbacks FIFO, I/O and timers noticed when the ready queue is empty',
-          'one virtual clock; deadlines off the 10 ms tick',
+          'one virtual clock; deadlines off the 10 ms tick, plus scenario (h) with deadlines exactly on a tick (values exact in floating point)',
           'faults on a connection are offered only at quiescent points that follow I/O activity on that connection',
           'preemption parts: at most one timer expiry between two ready callbacks per execution (the timer callback runs before the pending callbacks, as libev does)']
 
